@@ -1,26 +1,47 @@
-(* Properties/C02.v — rollback (label: partial).
-   MAIN THEOREM (C02_rollback_restores_every_regular_file): if a build of the mechanism
-   model raises — any program, any raise point, any previous cache — every regular file
-   of the pre-state is there afterwards with the same node (bytes, modification time,
-   inode): previous outputs, the cache file, overwritten foreign files included.  Side
-   conditions (Proofs/RollbackLaws.v): no injected fault; a well-formed tree; creatable
-   names (no over-long component) for the files of the pre-state and the directories the
-   old cache recorded; (A) neither a regular file of the pre-state nor a target is a
-   proper ancestor of a target, of the cache file or of a recorded target — i.e. the
-   file<->directory swaps are NOT covered by the theorem (they are decided on the
-   implementation by T2/T3).
-   Also proved: whatever a build does — commit or rollback, any fault — regular files
-   outside the managed set keep their node and none appears, and a refused build changes
-   nothing.  NOT a theorem: that no directory made by the failed build remains, and that
-   the next build behaves as if the failed one had never run (T3: snapshot oracle, twin
-   histories). *)
+(* Properties/C02.v — rollback (label: partial), about the mechanism model.
+   C02_rollback_state (Proofs/RollbackDirs*.v): when a build raises — any program, any raise
+   point, any previous cache — afterwards (1) the regular files are EXACTLY those of the
+   pre-state, same nodes (bytes, modification time, inode): previous outputs, the cache
+   file, overwritten foreign files are back and nothing the failed build wrote remains;
+   (2) every directory was there before, or was recorded as created by the previous build,
+   or is an ancestor that such a reappearing recorded directory needs; (3) no directory is
+   lost.  C02_same_exception: the exception that leaves build() is the one the root program
+   raised.  Side conditions: no injected fault; a well-formed tree; creatable names (no
+   over-long component); A2: no target is a proper ancestor of another target / the cache
+   file / a recorded target; A1w: a pre-state file that is an ancestor of such a path is not
+   (an ancestor of) a recorded directory (fails only for tampered caches:
+   RollbackDirsEx.v).  C02_rollback_restores_every_regular_file is the first half under the
+   older, stronger condition A (Proofs/RollbackLaws.v).
+   Also: files outside the managed set keep their node under any outcome and ANY fault; a
+   refused build changes nothing.  NOT a theorem: the rollback under injected faults (C14),
+   and that the next build behaves as if the failed one had never run (T3: twin histories). *)
 From Coq Require Import List String Bool.
 From FB.Base Require Import PyVal Fs.
 From FB.Gen Require Import JsonUtilGen.
 From FB.Spec Require Import Prog.
 From FB.Model Require Import Types Monad Builder Persist Build Run Frame.
-From FB.Proofs Require Import FrameLaws CleanLaws RollbackLaws.
+From FB.Proofs Require Import FrameLaws CleanLaws RollbackLaws RollbackDirsMain.
 Import ListNotations.
+
+Theorem C02_rollback_state : forall cf nm vers svers root w w' e (P : path -> Prop),
+  w_faults w = [] ->
+  sanitize vers = Some svers ->
+  AllTargets P root ->
+  fs_wf (w_fs w) ->
+  (forall p f, lookup (w_fs w) p = Some (NFile f) -> path_ok p = true) ->
+  (forall a t, (P t \/ t = cf \/ In t (cache_targets (old_cache_of (w_fs w) cf nm svers))) ->
+     below a t = true -> ~ P a) ->
+  (forall a f t r, lookup (w_fs w) a = Some (NFile f) ->
+     (P t \/ t = cf \/ In t (cache_targets (old_cache_of (w_fs w) cf nm svers))) -> below a t = true ->
+     In r (c_dirs (old_cache_of (w_fs w) cf nm svers)) -> a <> r /\ below a r = false) ->
+  (forall d, In d (c_dirs (old_cache_of (w_fs w) cf nm svers)) -> path_ok d = true) ->
+  run_build cf nm vers root w = (w', Done (inr e)) ->
+  (forall p f, lookup (w_fs w') p = Some (NFile f) <-> lookup (w_fs w) p = Some (NFile f)) /\
+  (forall d, isdir (w_fs w') d = true ->
+     isdir (w_fs w) d = true \/ In d (c_dirs (old_cache_of (w_fs w) cf nm svers)) \/
+     exists r, In r (c_dirs (old_cache_of (w_fs w) cf nm svers)) /\ below d r = true /\ isdir (w_fs w') r = true) /\
+  (forall d, isdir (w_fs w) d = true -> isdir (w_fs w') d = true).
+Proof. exact rollback_leaves_nothing_new. Qed.
 
 Theorem C02_rollback_restores_every_regular_file : forall cf nm vers svers root w w' e (P : path -> Prop),
   w_faults w = [] ->
